@@ -17,6 +17,44 @@ CLAIMED = {
             'Trusted: TLC, SimLan (stand-in for lifxlan only), Python Fraction/Decimal for encoding inputs. 32-bit TLC '
             'integers: durations cross as limb pairs. Tolerance 1/2 + 1/1000 raw unit for "nearest".',
             'DESIGN.md section 6, C07'),
+    'C01': ('model_checking', 'TLC trace validation of recorded script executions against the source-level semantics Lang.tla',
+            'Generated scripts over every documented statement form (random nesting, routines, all loop forms, random '
+            'populations of plain/multizone/matrix lights) plus a fixed corpus of the manual\'s examples are compiled and run by '
+            'the real Parser/Loader/Machine/LightSet/lifx_lan_light over a simulated lifxlan layer; the ordered list of device '
+            'commands, delay requests and output is validated event by event by TLC against spec/Lang.tla, a small-step semantics '
+            'written from docs/language.rst. Lang is deterministic, so a record is accepted iff its events are THE behaviour.',
+            'Trusted: TLC, SimLan, the unparser (tree -> text; precedence itself is C02\'s business), the generator\'s exactness '
+            'discipline (control flow depends only on values exact in floats and rationals). Skipped records (32-bit magnitude, '
+            'inputs the manual leaves undefined) are counted in the evidence, never reported.',
+            'DESIGN.md section 6, C01'),
+    'C03': ('model_checking', 'TLC trace validation against Lang.tla scope/call/return rules (profile routines)',
+            'Scripts with 1-4 routines whose parameter names collide with globals, loop variables and other parameters; '
+            'assignments to parameters/globals/fresh names at any depth; returns inside nested if/repeat; calls as statements, '
+            'bracketed, as arguments and operands; bounded recursion; all globals printed at the end. Every execution is validated '
+            'by TLC against Lang.tla whose Lookup/Assign/UnwindTo/Deliver operators are C03 verbatim.',
+            'As C01. Loop variables have program-unique names (what a loop variable holds after its loop is undocumented).',
+            'DESIGN.md section 6, C03'),
+    'C04': ('model_checking', 'TLC trace validation against Lang.tla loop rules (profile loops)',
+            'All eight repeat forms with counts 0..5 (literal/variable/expression), both directions, interpolation, cycle in '
+            'logical and raw units, iteration over all/groups/locations/and-lists on random populations (0..8 lights), nesting, '
+            'break anywhere; loop variables printed and transmitted each pass; validated by TLC against Lang.tla (LoopFrame, '
+            'LoopNext, SourceNames; invariant LoopCountFixed).',
+            'As C01. A full turn in raw units may be 65535 or 65536. Discontinuous functions only see exact values.',
+            'DESIGN.md section 6, C04'),
+    'C11': ('model_checking', 'TLC model checking of TimePattern over all 15851 patterns + trace validation of compiler/VM observations',
+            'Model level: TLC checks on all 15 851 well-formed patterns that the manual\'s field rule is exactly satisfiability. '
+            'Code level: every well-formed pattern and thousands of malformed strings are offered to the real compiler as '
+            '`time at p`; accepted ones are run and the minute set at the clock interface recorded; pairs/triples joined by `or` '
+            '(exhaustive over a reduced alphabet) and order-of-use histories with macros and loops likewise; TLC decides every row '
+            '(spec/TraceTimePattern.tla).',
+            'Trusted: TLC, recording clock (calls TimePattern.match for all 1440 times). Alphabet 0-9 * : only.',
+            'DESIGN.md section 6, C11'),
+    'C15': ('model_checking', 'TLC trace validation of zone and tile messages against Lang.tla (profile matrix)',
+            'Zone ranges and stage rectangles (literals/expressions, either order, omitted ends/clauses, blocks with loops, '
+            'set default before/after/never, three unit modes) on multizone lights of 1..40 zones and matrices 1x1..11x5; every '
+            'zone/tile message at the simulated device is matched cell by cell by TLC (RectOf, Overlay, TileCmd in Lang.tla).',
+            'As C01. set_zone_color(start, end) is taken to colour start <= z < end, as bardolph.fakes does.',
+            'DESIGN.md section 6, C15'),
 }
 
 REASONS_PENDING = 'check not built yet in this round (planned in DESIGN.md section 6); no claim is made'
